@@ -300,11 +300,19 @@ func runCheck(repo, prop, tier, speclib string, seed int64, writeEvidence bool, 
 		assume := map[string]bool{}
 		unsupp := []string{}
 		boundedLoops := map[string]int{}
+		verifiedHere := map[string]bool{}
+		for _, f := range rep.Funcs {
+			verifiedHere[f.Key] = true
+		}
 		for _, f := range rep.Funcs {
 			fns = append(fns, map[string]interface{}{"function": f.Key, "contract": f.File, "ssa_instrs": f.Instrs, "paths": f.Paths, "feasible_return_paths": f.ReturnPaths,
 				"obligations": len(f.Obligations), "inlined_callees": f.Inlined, "lemma": f.IsLemma})
 			for _, s := range f.Specs {
-				assume["assumed contract: "+s] = true
+				k := strings.TrimSuffix(s, " (contract verified against its body)")
+				if verifiedHere[k] {
+					continue // relied upon AND verified against its body in this run: not an assumption
+				}
+				assume["assumed contract (unchecked: dependency, interface method or trusted): "+k] = true
 			}
 			for _, s := range f.Havocked {
 				assume["callee without contract: "+s] = true
